@@ -54,7 +54,7 @@ func collect(e *Env, family string, n int, draw func(t *rapid.T) PkgSpec) []PkgS
 
 type buildStats struct {
 	Drawn, Rejected, Dropped, Kept int
-	DroppedWhy                  map[string]int
+	DroppedWhy                     map[string]int
 }
 
 // buildDriver generates every spec with goag (current tree), drops the ones goag
@@ -74,11 +74,11 @@ func buildDriver(e *Env, specs []PkgSpec, race bool) (string, string, []PkgSpec,
 	// goag is not safe for concurrent use inside one process (shared buffers in its
 	// rendering pipeline): generation is spread over child processes instead.
 	type prepIn struct {
-		Name string         `json:"name"`
-		Raw  string         `json:"raw"`
-		Cfg  inproc.Config  `json:"cfg"`
-		Meta map[string]any `json:"meta"`
-		Embed *string       `json:"embed,omitempty"`
+		Name  string         `json:"name"`
+		Raw   string         `json:"raw"`
+		Cfg   inproc.Config  `json:"cfg"`
+		Meta  map[string]any `json:"meta"`
+		Embed *string        `json:"embed,omitempty"`
 	}
 	nw := e.NShards
 	if nw > len(specs) {
@@ -311,11 +311,11 @@ type result2 struct {
 // cmdPrep generates, type-checks and registers a batch of specs (child process).
 func cmdPrep(root, inFile, outFile string) int {
 	var batch []struct {
-		Name string         `json:"name"`
-		Raw  string         `json:"raw"`
-		Cfg  inproc.Config  `json:"cfg"`
-		Meta map[string]any `json:"meta"`
-		Embed *string       `json:"embed"`
+		Name  string         `json:"name"`
+		Raw   string         `json:"raw"`
+		Cfg   inproc.Config  `json:"cfg"`
+		Meta  map[string]any `json:"meta"`
+		Embed *string        `json:"embed"`
 	}
 	bs, err := os.ReadFile(inFile)
 	if err != nil || json.Unmarshal(bs, &batch) != nil {
